@@ -257,8 +257,13 @@ def tt_terminal_filter(repo, tier="quick"):
     T2 = descriptor(">", 3, 1)     # another terminal
     B0 = descriptor("<", 4, 1)     # the site descriptor that was just used
     results = {}
-    for partner_terminal in (True, False):
-        store = {"bonding": [B0, T, N, T2]}
+    for partner_terminal in (True, False, "adjacent"):
+        store = {"bonding": [B0, T, N, T2] if partner_terminal != "adjacent" else [B0, T, T2, N]}
+        if partner_terminal == "adjacent":
+            partner_terminal = False
+            scenario = "adjacent"
+        else:
+            scenario = partner_terminal
         Cval = T if partner_terminal else N
 
         def load(ev, e, env):
@@ -326,7 +331,7 @@ def tt_terminal_filter(repo, tier="quick"):
                     raise
         except Unsupported as err:
             raise AnalysisError("terminal handling outside the block language: %s" % err, fi.where(tail[0] if tail else None))
-        results[partner_terminal] = store["bonding"]
+        results[scenario] = store["bonding"]
     obs = []
     oid = "TT.terminal-filter"
     r = results[True]
@@ -338,6 +343,10 @@ def tt_terminal_filter(repo, tier="quick"):
     r = results[False]
     ev = Evaluator()
     ok = isinstance(r, list) and len(r) == 1 and ev.eq(r[0], N)
+    r2 = results["adjacent"]
+    if ok and not (isinstance(r2, list) and len(r2) == 1 and ev.eq(r2[0], N)):
+        ok = False
+        r = r2
     (obs.append(ob_ok(oid, fi, tail[0] if tail else None, construct="partner not terminal -> site keeps exactly its non-terminal descriptors", instance="other-partner",
                       reason="terminal descriptors are withdrawn from an atom that grew otherwise; the others stay")) if ok else
      obs.append(ob_fail(oid, fi, tail[0] if tail else None, construct="partner not terminal -> site keeps %s" % _names(r, T, N, T2), instance="other-partner",
